@@ -47,7 +47,7 @@ func (c08Stream) Generate(rng *rand.Rand, n int, thorough bool) []Case {
 			// what an application does with more than one server, or with a server that is running: two servers built
 			// from ONE slice of options and one mux; a new router handed to a running server; Router() called while Stop
 			// is waiting for a busy connection
-			cs = append(cs, Case{Line: fmt.Sprintf("c08 conns=2 ending=%s inflight=none mode=plain seed=%d", []string{"twoservers", "routerswap", "stoprouter"}[rng.Intn(3)], rng.Intn(1<<30)), Kind: "servers"})
+			cs = append(cs, Case{Line: fmt.Sprintf("c08 conns=2 ending=%s inflight=none mode=plain seed=%d", []string{"twoservers", "routerswap", "stoprouter", "noonclose"}[rng.Intn(4)], rng.Intn(1<<30)), Kind: "servers"})
 			continue
 		}
 		if rng.Intn(10) == 0 {
@@ -371,7 +371,7 @@ func (c08Stream) Impl(c Case) string {
 	if p["ending"] == "burst" {
 		return c08Burst(atoi(p["conns"]), p["mode"], int64(atoi(p["seed"])))
 	}
-	if e := p["ending"]; e == "twoservers" || e == "routerswap" || e == "stoprouter" {
+	if e := p["ending"]; e == "twoservers" || e == "routerswap" || e == "stoprouter" || e == "noonclose" {
 		return c08Servers(e)
 	}
 	k, ending, inflight, mode := atoi(p["conns"]), p["ending"], p["inflight"], p["mode"]
@@ -928,6 +928,45 @@ func c08Servers(kind string) string {
 	}
 	verdict := "ok"
 	switch kind {
+	case "noonclose":
+		// a server nobody gave an OnClose callback; a client whose only request is an Unbind (served by the unbind
+		// route), then another client: two connections, two ids
+		var umu sync.Mutex
+		unbindID := 0
+		mux := allRoutes(h, nil, func(w *gldap.ResponseWriter, r *gldap.Request) {
+			umu.Lock()
+			unbindID = r.ConnectionID()
+			umu.Unlock()
+		})
+		srv, err := gldap.NewServer(gldap.WithLogger(hclog.NewNullLogger()))
+		if err != nil {
+			return "harness-error " + err.Error()
+		}
+		_ = srv.Router(mux)
+		addr := freeAddr()
+		go func() { _ = srv.Run(addr) }()
+		for i := 0; i < 3000 && !srv.Ready(); i++ {
+			time.Sleep(time.Millisecond)
+		}
+		defer stopAll(srv)
+		a, err := dialRaw(addr, nil)
+		if err != nil {
+			return "harness-error connect: " + err.Error()
+		}
+		_ = a.send(Seq(Int(2, 1), P(1, 2, nil)).Ser())
+		_, _ = a.readFrame(2 * time.Second) // (the end of the stream)
+		a.close()
+		time.Sleep(100 * time.Millisecond)
+		if _, e := bindOn(addr, "cn=next", true); e != "" {
+			return e
+		}
+		umu.Lock()
+		mu.Lock()
+		if unbindID <= 0 || seen["cn=next"] <= 0 || unbindID == seen["cn=next"] {
+			verdict = fmt.Sprintf("a connection that only sent an Unbind reported ConnectionID %d to the unbind handler, the next connection of the server reports %d", unbindID, seen["cn=next"])
+		}
+		mu.Unlock()
+		umu.Unlock()
 	case "twoservers":
 		mux := mkMux()
 		a, addrA, _ := start(mux)
